@@ -54,7 +54,7 @@ func (b *OnDemandBlockTaskPool) VerifSnapshot() string {
 	}
 	return fmt.Sprintf("st=%d total=%d run=%d qlen=%d gn=%d mp=[%s] idc=%d ictx=%d",
 		atomic.LoadInt32(&b.state), b.totalGo, atomic.LoadInt32(&b.numGoRunningTasks), len(b.queue),
-		b.timeoutGroup.n, strings.Join(s, ","), atomic.LoadInt32(&b.id), ictx)
+		b.timeoutGroup.n, strings.Join(s, ","), b.verifIDC(), ictx)
 }
 
 // VerifConfig reports the configuration the constructor computed (after the defaulting rule).
